@@ -154,7 +154,7 @@ func build(def *backendDef, dir string) (*instance, error) {
 		}
 		kvc, unreg := regKV("dpidx", wrapKV("diskpacked-index", sorted.NewMemoryKeyValue(), p))
 		in.closers = append(in.closers, unreg)
-		conf := jsonconfig.Obj{"path": d, "metaIndex": map[string]any(kvc), "maxFileSize": float64(6000)}
+		conf := jsonconfig.Obj{"path": d, "metaIndex": map[string]any(kvc), "maxFileSize": float64(1200)}
 		cur, err := create("diskpacked", ld, conf)
 		if err != nil {
 			return nil, err
@@ -409,11 +409,9 @@ func composition(rng *rand.Rand, depth int) *sto.Spec {
 		for i := range kids {
 			kids[i] = kid()
 		}
-		p := map[string]any{}
-		if rng.Intn(2) == 0 {
-			p["minWrites"] = n - 1
-		}
-		return sp("replica", p, kids...)
+		// minWrites stays at "all": with a smaller quorum replica.ReceiveBlob returns while uploads
+		// are still in flight, and a following remove races with them (C12's subject, not C13's)
+		return sp("replica", nil, kids...)
 	case 1:
 		n := 2 + rng.Intn(2)
 		kids := make([]*sto.Spec, n)
@@ -444,7 +442,6 @@ func backendDefs(rng *rand.Rand, thorough bool) []*backendDef {
 		{Name: "blobpacked", Label: "blobpacked", Kind: "blobpacked", Gate: 50},
 		{Name: "encrypt", Label: "encrypt", Kind: "encrypt", Gate: 20},
 		{Name: "replica", Label: "replica", Kind: "replica"},
-		{Name: "replica-q2", Label: "replica", Kind: "replica-q2"},
 		{Name: "shard", Label: "shard", Kind: "shard"},
 		{Name: "cond", Label: "cond", Kind: "cond"},
 		{Name: "overlay", Label: "overlay", Kind: "overlay"},
@@ -455,15 +452,22 @@ func backendDefs(rng *rand.Rand, thorough bool) []*backendDef {
 	n := 8
 	if thorough {
 		n = 40
+		// two more seeded histories per single backend
+		for _, d := range append([]*backendDef(nil), defs...) {
+			for h := 1; h <= 2; h++ {
+				defs = append(defs, &backendDef{Name: fmt.Sprintf("%s~%d", d.Name, h), Label: d.Label, Kind: d.Kind})
+			}
+		}
 	}
 	seen := map[string]bool{}
-	for i := 0; len(defs) < 12+n && i < 1000; i++ {
+	nSingles := len(defs)
+	for i := 0; len(defs) < nSingles+n && i < 1000; i++ {
 		s := composition(rng, 3)
 		if len(s.Kids) == 0 || seen[s.String()] {
 			continue
 		}
 		seen[s.String()] = true
-		defs = append(defs, &backendDef{Name: fmt.Sprintf("comp%d", len(defs)-12), Label: "comp", Kind: "sto", Spec: s, Comp: true})
+		defs = append(defs, &backendDef{Name: fmt.Sprintf("comp%d", len(defs)-nSingles), Label: "comp", Kind: "sto", Spec: s, Comp: true})
 	}
 	return defs
 }
